@@ -350,11 +350,13 @@ impl EigenTrustEngine {
         }
 
         // Apply multi-factor trust adjustments
+        // A node nobody reported on yet is rated like one with empty
+        // statistics, so that its first report moves it in the right direction.
+        let no_stats = NodeStatistics::default();
         for (node, trust) in trust_vector.iter_mut() {
-            if let Some(stats) = node_stats.get(node) {
-                let factor = self.compute_multi_factor_adjustment(stats);
-                *trust *= factor;
-            }
+            let stats = node_stats.get(node).unwrap_or(&no_stats);
+            let factor = self.compute_multi_factor_adjustment(stats);
+            *trust *= factor;
         }
 
         // Apply time decay
